@@ -124,7 +124,7 @@ MC.update({
             "thorough": [_mc("rw1"), _mc("rw1_nf0"), _mc("rw1_nf2"), _mc("lfsw"), _mc("lfsw_nf0"), _mc("2c"), _mc("2c_nf0"), _mc("2r1w"), _mc("2r1w_nf0"), _mc("rculd", simulate=40000, timeout=2400), _mc("bug_confirm", "Refines")]},
     "C04": {"quick": [_mc("lfsw"), _mc("lfsw_nf0"), _mc("rcust")],
             "thorough": [_mc("lfsw"), _mc("lfsw_nf0"), _mc("rcust"), _mc("rcu2"), _mc("1r2w", simulate=40000, timeout=2400), _mc("1r2w_nf0", simulate=40000, timeout=2400)]},
-    "C05": {"quick": [_mc("rcust")], "thorough": [_mc("rcust"), _mc("rcu2"), _mc("rcu2_nf0", simulate=40000, timeout=2400), _mc("rculd", simulate=40000, timeout=2400)]},
+    "C05": {"quick": [_mc("rcust"), _mc("cas"), _mc("cas2")], "thorough": [_mc("rcust"), _mc("cas"), _mc("cas2"), _mc("cas_nf0"), _mc("rcu2"), _mc("rcu2_nf0", simulate=40000, timeout=2400), _mc("rculd", simulate=40000, timeout=2400)]},
     "C06": {"quick": [_mc("rcust")], "thorough": [_mc("rcust"), _mc("rcu2"), _mc("rcu2_nf0", simulate=40000, timeout=2400), _mc("rculd", simulate=40000, timeout=2400)]},
     "C08": {"quick": [_mc("rw1"), _mc("rw1_nf0"), _mc("rw1h"), _mc("rw1h_nf0")],
             "thorough": [_mc("rw1"), _mc("rw1_nf0"), _mc("rw1_nf2"), _mc("rw1h"), _mc("rw1h_nf0"), _mc("2r1w"), _mc("2r1w_nf0")]},
